@@ -10,8 +10,8 @@ LEVEL_TEXT = ("Forward.tla transcribes forward.Manager (Initialize / Start / Sto
               "reload pair, started and stopped), each walk is replayed on the real Manager with unroutable loopback "
               "destinations, and TLC re-evaluates the formulas on what the real manager lists and runs after every call")
 LEVEL_NOTE = ("destination lists of length <= 3 over 3 destinations (two protocols, one differing only in a parameter); Start/Stop "
-              "strictly alternate as in core/path.go; 'runs' is read from the handler's done channel, identity from the API ids "
-              "(in-package); destinations that merely move position are left open by the statement and by the formulas")
+              "strictly alternate as in core/path.go; 'started' is what the harness did, identity comes from the API ids, run loops "
+              "are counted from the forwarders' start/stop log lines and their done channels (found by type); destinations that merely move position are left open by the statement and by the formulas")
 TECHNIQUE = "TLA+ model (TLC): exhaustive bounded MC + edge-covering walks of the state graph replayed on the real forward.Manager + trace validation"
 
 CFG = """SPECIFICATION %s
@@ -67,7 +67,13 @@ def run(ctx):
     obs = vf.read_ndjson(obsf)
     if len(obs) != len(runs):
         raise vf.Infra("harness replayed %d of %d walks" % (len(obs), len(runs)))
+    crashed = [o for o in obs if o["crashed"]]
+    obs = [o for o in obs if not o["crashed"]]
+    if not obs:
+        raise vf.Infra("the code under test crashed the harness process in every walk: " + crashed[0]["crashed"][:600])
     cut = [o for o in obs if o["truncated"]]
+    if not all(o["ptrs"] and o["logs"] for o in obs):
+        ctx.note("observation channels: done channels %s, forwarder log lines %s" % (obs[0]["ptrs"], obs[0]["logs"]))
     for o in obs:
         if len(o["obs"]) != len(o["ops"]):
             raise vf.Infra("run %d: %d observations for %d operations" % (o["run"], len(o["obs"]), len(o["ops"])))
@@ -90,6 +96,13 @@ def run(ctx):
         if o["truncated"] and (i + 1) not in badruns:
             raise vf.Infra("run %d was cut short by the harness (%s) although no formula fails on it" % (o["run"], o["truncated"]))
     ctx.set("walks_cut_short", len(cut))
+    ctx.set("walks_crashed", len(crashed))
+    if crashed:
+        if not badruns:
+            raise vf.Infra("the code under test crashed the harness process in %d of %d walks and no formula fails on the "
+                           "others: %s" % (len(crashed), len(crashed) + len(obs), crashed[0]["crashed"][:600]))
+        ctx.note("the code under test crashed the harness process in %d walks (not a verdict by itself); first: %s"
+                 % (len(crashed), crashed[0]["crashed"][:300].replace("\n", " | ")))
     ctx.set("traces_validated_against_impl", len(obs))
     ctx.set("steps_replayed", sum(len(o["ops"]) for o in obs))
     ctx.set("drift_runs", len(drift))
@@ -102,5 +115,5 @@ def run(ctx):
     ctx.sample({"ops": obs[-1]["ops"][:3], "obs": obs[-1]["obs"][:3]})
     ctx.assume("the path calls Start and Stop strictly alternately (setAvailable / setNotAvailable) and never concurrently "
                "with ReloadConf (all three are called from the path's own goroutine)")
-    ctx.assume("a forwarder 'runs' while its goroutine is alive (done channel open); whether it reaches its destination is "
-               "outside the property")
+    ctx.assume("a forwarder 'runs' from start() until stop() has returned (log lines 'starting' / 'stopping', done channel open); "
+               "whether it reaches its destination is outside the property")
